@@ -499,7 +499,9 @@ def rule_print_all(ctx: RuleContext, p: Program, rid: str) -> None:
     for k in range(0, 5):
         texts = ['t0;', ' ', '\n', '', 't4'][:k + 1] if k else []
         toks = [possem.Obj('Tok', {'raw_text': tx}, f'tok{i}') for i, tx in enumerate(texts)]
-        model = possem.Obj('Model', {'tokens': toks}, 'model')
+        store_ = possem.Obj('Store', {'all': list(toks), 'span': list(toks) or [None]}, 'store')
+        model = possem.Obj('Model', {'tokens': toks, 'token_store': store_ if toks else None, '_token_store': store_ if toks else None,
+                                     'first_token': toks[0] if toks else None, 'last_token': toks[-1] if toks else None}, 'model')
         out = possem.Obj('File', {}, 'file')
         it = Interp(pm)
         try:
@@ -511,7 +513,19 @@ def rule_print_all(ctx: RuleContext, p: Program, rid: str) -> None:
             problem = problem or f'{k} tokens: writes {it.written}, the tokens read {[t.f["raw_text"] for t in toks]}'
         elif res is not out:
             problem = problem or 'does not return the file it was given'
-    ctx.check(not problem, rid, 'printer:print_model', 'writes every token', f'print_model: {problem}', f.where, note='mock models of 0..3 tokens')
+    # a token model that lives in no store (what parse_token / from_raw_text / from_value return): its `tokens` is the token itself
+    lone = possem.Obj('Tok', {'raw_text': '2000-01-01', 'token_store': None, '_token_store': None}, 'lone token')
+    lone.f.update({'tokens': [lone], 'first_token': lone, 'last_token': lone})
+    out = possem.Obj('File', {}, 'file')
+    it = Interp(pm)
+    try:
+        it.call_function(f, [lone, out], {})
+        if ''.join(it.written) != '2000-01-01':
+            problem = problem or (f'a token model outside any store (parse_token, from_raw_text, from_value) prints {"".join(it.written)!r} instead of '
+                                  f'its text: model.tokens is the token itself there, a store range is not')
+    except possem.Raised as ex:
+        problem = problem or f'a token model outside any store: raises {ex}'
+    ctx.check(not problem, rid, 'printer:print_model', 'writes every token', f'print_model: {problem}', f.where, note='mock models of 0..3 tokens and a lone token')
     rm = p.cls('RawModel', 'models.base')
     t = p.method(rm, 'tokens', inherited=False)
     bm = p.module('models.base')
